@@ -40,27 +40,65 @@ theorem leg_agree (cfg : Cfg) (hg : legGoodB cfg = true) (r : Rec) (ls : List Le
 
 theorem exec_agree (cfg : Cfg) (store : List Rec) (q : Query) (g : Group) (hq : q.filter = some g)
     (hints : List Hint) (residual : Option Group) (ha : Aligned cfg store q)
-    (hsound : ∀ r ∈ store, (hints.any (fun h => hintMatch h r) && passOf cfg residual r) = evalGroup (evalLeaf cfg r.body) g) :
+    (hsound : ∀ r ∈ store, (hints.any (fun h => hintMatch h r) && passOf cfg residual r) = evalGroup (evalLeaf cfg r.body) g)
+    (hres : ∀ res, residual = some res → res.hasLabels = true → g.hasLabels = true) :
     keysOf (bucketExec cfg store q g hints residual) = keysOf (scanRoute cfg store q) ∧
     (cfg.labelReattach = true → bucketExec cfg store q g hints residual = scanRoute cfg store q) := by
-  have hrows : (rowsB cfg store q hints).filter (passOf cfg residual) = (indexRead q store).filter (passOf cfg (some g)) :=
-    rows_agree cfg store q g hints residual ha hsound
+  -- the group the bucket route evaluates: the whole filter (when it re-attaches labels) or the residual
+  have hsound' : ∀ r ∈ store, (hints.any (fun h => hintMatch h r) && passOf cfg (residOf cfg g residual) r) =
+      evalGroup (evalLeaf cfg r.body) g := by
+    intro r hr
+    unfold residOf
+    split
+    · have := hsound r hr
+      simp only [passOf]
+      cases he : evalGroup (evalLeaf cfg r.body) g
+      · simp
+      · rw [he] at this
+        have : (hints.any fun h => hintMatch h r) = true := by
+          cases hh : (hints.any fun h => hintMatch h r)
+          · rw [hh] at this; simp at this
+          · rfl
+        simp [this]
+    · exact hsound r hr
+  have hrows : (rowsB cfg store q hints).filter (passOf cfg (residOf cfg g residual)) =
+      (indexRead q store).filter (passOf cfg (some g)) :=
+    rows_agree cfg store q g hints (residOf cfg g residual) ha hsound'
+  -- labels: equal as soon as labels are re-attached
+  have hlab : cfg.labelReattach = true → ∀ r, labOf cfg (residOf cfg g residual) r = labOf cfg (some g) r := by
+    intro hl r
+    unfold residOf
+    cases hg : g.hasLabels
+    · simp only [hl, hg, Bool.and_false, Bool.false_eq_true, if_false]
+      cases hr : residual with
+      | none => simp [labOf, hg]
+      | some res =>
+        have : res.hasLabels = false := by
+          cases h1 : res.hasLabels
+          · rfl
+          · have := hres res hr h1; rw [hg] at this; cases this
+        simp [labOf, hg, this]
+    · simp [hl, hg]
   rw [bucketExec_eq, scanRoute_eq, hq]
   rcases ha.paging with ⟨hb, hs⟩ | ⟨hb, hs, h0, h1⟩
-  · -- offset/limit after the whole predicate on both routes
-    simp only [hb, hs, if_true, hrows]
+  · simp only [hb, hs, if_true, hrows]
     refine ⟨?_, ?_⟩
     · simp only [keysOf, capMax_map, List.map_map]
       rfl
     · intro hl
-      simp only [hl, if_true]
-  · -- offset/limit before the predicate, but the query does not page
-    simp only [hb, hs, Bool.false_eq_true, if_false, h0, h1, pageOf_zero, hrows]
+      have := hlab hl
+      congr 2
+      funext r
+      rw [this r]
+  · simp only [hb, hs, Bool.false_eq_true, if_false, h0, h1, pageOf_zero, hrows]
     refine ⟨?_, ?_⟩
     · simp only [keysOf, capMax_map, List.map_map]
       rfl
     · intro hl
-      simp only [hl, if_true]
+      have := hlab hl
+      congr 2
+      funext r
+      rw [this r]
 
 /-- **Route agreement, conditionally.**  Whatever the facts: if the query is one on which the two
     routes' shared machinery is aligned (`Aligned`: no paging or paging after the predicate,
@@ -77,38 +115,64 @@ theorem routes_agree_of (cfg : Cfg) (hb : cfg.planOrBypassOnSubGroups = true) (s
   | none => exact ⟨rfl, fun _ => rfl⟩
   | some g =>
     simp only []
-    cases hp : planFilter cfg g with
-    | bypass => exact ⟨rfl, fun _ => rfl⟩
-    | and hints res =>
-      simp only []
-      apply exec_agree cfg store q g hq hints (some res) ha
-      intro r hr
-      have := Hv.Query.planner_sound cfg hb r g (hlegs g hq r hr)
-      rw [hp] at this
-      simpa [planMatches, passOf] using this
-    | orUnion hints =>
-      simp only []
-      apply exec_agree cfg store q g hq hints none ha
-      intro r hr
-      have := Hv.Query.planner_sound cfg hb r g (hlegs g hq r hr)
-      rw [hp] at this
-      simpa [planMatches, passOf] using this
+    split
+    · exact ⟨rfl, fun _ => rfl⟩
+    · cases hp : planFilter cfg g with
+      | bypass => exact ⟨rfl, fun _ => rfl⟩
+      | and hints res =>
+        simp only []
+        apply exec_agree cfg store q g hq hints (some res) ha
+        · intro r hr
+          have := Hv.Query.planner_sound cfg hb r g (hlegs g hq r hr)
+          rw [hp] at this
+          simpa [planMatches, passOf] using this
+        · intro res' he hl
+          simp only [Option.some.injEq] at he
+          subst he
+          exact residual_hasLabels cfg g hints res hp hl
+      | orUnion hints =>
+        simp only []
+        apply exec_agree cfg store q g hq hints none ha
+        · intro r hr
+          have := Hv.Query.planner_sound cfg hb r g (hlegs g hq r hr)
+          rw [hp] at this
+          simpa [planMatches, passOf] using this
+        · intro res' he; cases he
+
+/-- offset/limit cannot make the routes differ: applied after the whole predicate on both, or
+    applied before it on both while paged queries never take the bucket route -/
+def pagingGoodB (cfg : Cfg) : Bool :=
+  (cfg.bucketPagingAfterFilter && cfg.scanPagingAfterFilter) ||
+  (!cfg.bucketPagingAfterFilter && !cfg.scanPagingAfterFilter && cfg.pagedQueriesBypass)
 
 /-- all facts sound -/
 def goodB (cfg : Cfg) : Bool :=
   legGoodB cfg && cfg.planOrBypassOnSubGroups && cfg.lookupInDedupes && cfg.unionDedupes &&
-  cfg.bucketPagingAfterFilter && cfg.scanPagingAfterFilter && cfg.labelReattach && cfg.bucketChecksAttr &&
-  cfg.bucketWindowTimeOnly
+  pagingGoodB cfg && cfg.labelReattach && cfg.bucketChecksAttr && cfg.bucketWindowTimeOnly
 
 /-- **Full theorem (repaired facts)**: `paging_agree` and `labels_agree` together — same records,
     same order, same labels, for every store and every query. -/
 theorem holds_of_good (cfg : Cfg) (h : goodB cfg = true) : Holds cfg := by
   simp only [goodB, Bool.and_eq_true] at h
-  obtain ⟨⟨⟨⟨⟨⟨⟨⟨hleg, hb⟩, hd1⟩, hd2⟩, hp1⟩, hp2⟩, hlab⟩, hattr⟩, hwin⟩ := h
+  obtain ⟨⟨⟨⟨⟨⟨⟨hleg, hb⟩, hd1⟩, hd2⟩, hpg⟩, hlab⟩, hattr⟩, hwin⟩ := h
   intro store q
-  have ha : Aligned cfg store q :=
-    { dedupIn := hd1, dedupUnion := hd2, paging := Or.inl ⟨hp1, hp2⟩, attr := Or.inl hattr, window := Or.inl hwin }
-  exact (routes_agree_of cfg hb store q ha (fun g _ r _ => leg_agree cfg hleg r _)).2 hlab
+  simp only [pagingGoodB, Bool.or_eq_true, Bool.and_eq_true, Bool.not_eq_true'] at hpg
+  rcases hpg with ⟨hp1, hp2⟩ | ⟨⟨hp1, hp2⟩, hby⟩
+  · have ha : Aligned cfg store q :=
+      { dedupIn := hd1, dedupUnion := hd2, paging := Or.inl ⟨hp1, hp2⟩, attr := Or.inl hattr, window := Or.inl hwin }
+    exact (routes_agree_of cfg hb store q ha (fun g _ r _ => leg_agree cfg hleg r _)).2 hlab
+  · by_cases hpaged : (q.from_ != 0 || q.limit != 0) = true
+    · -- a paged query is answered by the scan route itself
+      unfold bucketRoute
+      cases hq : q.filter with
+      | none => rfl
+      | some g => simp [hby, hpaged]
+    · have h0 : q.from_ = 0 ∧ q.limit = 0 := by
+        simp only [Bool.or_eq_true, bne_iff_ne, ne_eq, not_or, Decidable.not_not] at hpaged
+        exact hpaged
+      have ha : Aligned cfg store q :=
+        { dedupIn := hd1, dedupUnion := hd2, paging := Or.inr ⟨hp1, hp2, h0.1, h0.2⟩, attr := Or.inl hattr, window := Or.inl hwin }
+      exact (routes_agree_of cfg hb store q ha (fun g _ r _ => leg_agree cfg hleg r _)).2 hlab
 
 /-- what remains proved whatever the facts are: the conditional agreement of keys -/
 def Partial (cfg : Cfg) : Prop :=
@@ -182,19 +246,21 @@ theorem refutes_of_findings (cfg : Cfg) (h : findings cfg ≠ []) : ¬ Holds cfg
   obtain ⟨w, hw⟩ := List.exists_mem_of_ne_nil _ this
   exact refutes_of_witness cfg w.2.1 w.2.2 (List.mem_filter.mp hw).2
 
-/-- the facts of the tree as of this writing (after the `fix:` commit that made `indexableHint`
-    refuse `[*]` / `#len` paths) -/
-def current : Cfg := {
-  indexableOps := [.eq, .strIn, .i32In, .i64In], excludesSpecialPaths := true, planOrBypassOnSubGroups := true,
+/-- the facts of the tree before the five `fix:` commits on the accelerated route -/
+def beforeFix : Cfg := {
+  indexableOps := [.eq, .strIn, .i32In, .i64In], excludesSpecialPaths := false, planOrBypassOnSubGroups := true,
   scanEqCanonical := false, bucketPagingAfterFilter := false, scanPagingAfterFilter := false, labelReattach := false,
-  bucketChecksAttr := false, lookupInDedupes := true, unionDedupes := true, bucketWindowTimeOnly := false }
+  pagedQueriesBypass := false, bucketChecksAttr := false, lookupInDedupes := true, unionDedupes := true,
+  bucketWindowTimeOnly := false }
 
-/-- the facts before that commit -/
-def beforeFix : Cfg := { current with excludesSpecialPaths := false }
+/-- the facts of the tree as of this writing: special paths are not hinted, paged queries take the
+    index walk, labelled filters are evaluated whole on the candidates, time-ordered candidates must
+    carry the timestamp, the key index ignores the window.  Left: equality on the scan route. -/
+def current : Cfg := { beforeFix with
+  excludesSpecialPaths := true, pagedQueriesBypass := true, labelReattach := true, bucketChecksAttr := true,
+  bucketWindowTimeOnly := true }
 
-def repaired : Cfg := { current with
-  scanEqCanonical := true, bucketPagingAfterFilter := true, scanPagingAfterFilter := true,
-  labelReattach := true, bucketChecksAttr := true, bucketWindowTimeOnly := true }
+def repaired : Cfg := { current with scanEqCanonical := true }
 
 /-- float 5.75 against integer 5: only the scan route returns `k1` -/
 theorem witness_float_vs_int :
@@ -213,27 +279,25 @@ theorem witness_wildcard_path :
 theorem witness_paging :
     let store := [rec "k1" (body [("a", .int 1)]) 1, rec "k2" (body [("a", .int 2)]) 2, rec "k3" (body [("a", .int 2)]) 3]
     let q := { qKey (.mk false [leaf [.field "a"] .eq (.i64 2)] []) with from_ := 1 }
-    keysOf (bucketRoute current store q) = ["k3"] ∧ keysOf (scanRoute current store q) = ["k2", "k3"] := by decide
+    keysOf (bucketRoute beforeFix store q) = ["k3"] ∧ keysOf (scanRoute beforeFix store q) = ["k2", "k3"] := by decide
 
 /-- the label of the indexed leg is missing on the accelerated route -/
 theorem witness_label :
     let store := [rec "k1" (body [("a", .int 1), ("b", .str "a")]) 1]
     let q := qKey (.mk false [leaf [.field "a"] .eq (.i64 1) "L1", leaf [.field "b"] .eq (.str "a") "L2"] [])
-    bucketRoute current store q = [("k1", ["L2"])] ∧ scanRoute current store q = [("k1", ["L1", "L2"])] := by decide
+    bucketRoute beforeFix store q = [("k1", ["L2"])] ∧ scanRoute beforeFix store q = [("k1", ["L1", "L2"])] := by decide
 
 /-- a record without CreatedAt in a creation-time ordered query -/
 theorem witness_attribute :
     let store := [rec "k1" (body [("a", .int 1)]) 0, rec "k2" (body [("a", .int 1)]) 2]
     let q := { qKey (.mk false [leaf [.field "a"] .eq (.i64 1)] []) with slot := .created }
-    keysOf (bucketRoute current store q) = ["k1", "k2"] ∧ keysOf (scanRoute current store q) = ["k2"] := by decide
+    keysOf (bucketRoute beforeFix store q) = ["k1", "k2"] ∧ keysOf (scanRoute beforeFix store q) = ["k2"] := by decide
 
 theorem findings_beforeFix : findings beforeFix =
     ["C08-scan-equality-not-canonical", "C08-special-path-hinted", "C08-paging-before-residual",
      "C08-indexed-leg-label-dropped", "C08-bucket-route-ignores-index-attribute", "C08-window-on-key-index"] := by decide
 
-theorem findings_current : findings current =
-    ["C08-scan-equality-not-canonical", "C08-paging-before-residual",
-     "C08-indexed-leg-label-dropped", "C08-bucket-route-ignores-index-attribute", "C08-window-on-key-index"] := by decide
+theorem findings_current : findings current = ["C08-scan-equality-not-canonical"] := by decide
 
 theorem refutes_current : ¬ Holds current := refutes_of_findings current (by rw [findings_current]; simp)
 
@@ -272,6 +336,7 @@ structure Facts where
   bucketPagingAfterFilter : Tri
   scanPagingAfterFilter : Tri
   labelReattach : Tri
+  pagedQueriesBypass : Tri
   bucketChecksAttr : Tri
   lookupInDedupes : Tri
   unionDedupes : Tri
@@ -290,7 +355,8 @@ def cfgOf (f : Facts) : Cfg := {
   indexableOps := f.indexableOps.getD [], excludesSpecialPaths := f.excludesSpecialPaths.isYes,
   planOrBypassOnSubGroups := f.planOrBypassOnSubGroups.isYes, scanEqCanonical := f.scanEqCanonical.isYes,
   bucketPagingAfterFilter := f.bucketPagingAfterFilter.isYes, scanPagingAfterFilter := f.scanPagingAfterFilter.isYes,
-  labelReattach := f.labelReattach.isYes, bucketChecksAttr := f.bucketChecksAttr.isYes,
+  labelReattach := f.labelReattach.isYes, pagedQueriesBypass := f.pagedQueriesBypass.isYes,
+  bucketChecksAttr := f.bucketChecksAttr.isYes,
   lookupInDedupes := f.lookupInDedupes.isYes, unionDedupes := f.unionDedupes.isYes,
   bucketWindowTimeOnly := f.bucketWindowTimeOnly.isYes }
 
@@ -302,7 +368,7 @@ def unknownFact (f : Facts) : Option String :=
   if !f.canonStandard.isYes then some "valuecanon" else
   if f.scanLeafStandard == .unknown && f.scanEqCanonical != .yes then some "evaluateBytesFieldFilterAgainstMap" else
   if [f.excludesSpecialPaths, f.planOrBypassOnSubGroups, f.scanEqCanonical, f.bucketPagingAfterFilter,
-      f.scanPagingAfterFilter, f.labelReattach, f.bucketChecksAttr, f.lookupInDedupes, f.unionDedupes,
+      f.scanPagingAfterFilter, f.labelReattach, f.pagedQueriesBypass, f.bucketChecksAttr, f.lookupInDedupes, f.unionDedupes,
       f.bucketWindowTimeOnly].any (· == .unknown) then some "a fact of GetByIndexStream / bucket_exec / bucket" else
   none
 
